@@ -556,3 +556,88 @@ func (tm *TModel) String() string {
 	}
 	return tm.GoType.String()
 }
+
+// ProbeValues returns concrete values of t whose encodings are real encodings by
+// construction: the zero value, a value with every pointer allocated (embedded pointers to
+// unexported structs included) and zero contents, and one with non-zero scalars and
+// one-element containers throughout.
+func ProbeValues(t reflect.Type) []reflect.Value {
+	zero := reflect.New(t).Elem()
+	alloc := reflect.New(t).Elem()
+	fillAll(alloc, 0, false)
+	full := reflect.New(t).Elem()
+	fillAll(full, 0, true)
+	return []reflect.Value{zero, alloc, full}
+}
+
+func fillAll(v reflect.Value, depth int, nonZero bool) {
+	if depth > 6 {
+		return
+	}
+	if !v.CanSet() {
+		if !v.CanAddr() {
+			return
+		}
+		v = reflect.NewAt(v.Type(), unsafe.Pointer(v.UnsafeAddr())).Elem()
+	}
+	switch v.Kind() {
+	case reflect.Bool:
+		v.SetBool(nonZero)
+	case reflect.Int, reflect.Int8, reflect.Int16, reflect.Int32, reflect.Int64:
+		if nonZero {
+			v.SetInt(7)
+		}
+	case reflect.Uint, reflect.Uint8, reflect.Uint16, reflect.Uint32, reflect.Uint64, reflect.Uintptr:
+		if nonZero {
+			v.SetUint(7)
+		}
+	case reflect.Float32, reflect.Float64:
+		if nonZero {
+			v.SetFloat(1.5)
+		}
+	case reflect.String:
+		if nonZero {
+			v.SetString("nz")
+		}
+	case reflect.Pointer:
+		p := reflect.New(v.Type().Elem())
+		fillAll(p.Elem(), depth+1, nonZero)
+		v.Set(p)
+	case reflect.Slice:
+		if nonZero {
+			s := reflect.MakeSlice(v.Type(), 1, 1)
+			fillAll(s.Index(0), depth+1, nonZero)
+			v.Set(s)
+		}
+	case reflect.Array:
+		for i := 0; i < v.Len(); i++ {
+			fillAll(v.Index(i), depth+1, nonZero)
+		}
+	case reflect.Map:
+		if nonZero && v.Type().Key().Kind() == reflect.String {
+			mp := reflect.MakeMap(v.Type())
+			e := reflect.New(v.Type().Elem()).Elem()
+			fillAll(e, depth+1, nonZero)
+			mp.SetMapIndex(reflect.ValueOf("k").Convert(v.Type().Key()), e)
+			v.Set(mp)
+		}
+	case reflect.Interface:
+		if nonZero && v.NumMethod() == 0 {
+			v.Set(reflect.ValueOf("nz"))
+		}
+	case reflect.Struct:
+		switch v.Type().String() {
+		case "time.Time", "big.Int", "big.Rat", "big.Float", "slog.Level":
+			if nonZero {
+				v.Set(nonZeroValue(v.Type(), 0))
+			}
+			return
+		}
+		for i := 0; i < v.NumField(); i++ {
+			sf := v.Type().Field(i)
+			if sf.IsExported() || sf.Anonymous {
+				fillAll(v.Field(i), depth+1, nonZero)
+			}
+		}
+	}
+}
